@@ -118,6 +118,40 @@ fn check_selection<const N: usize>(mode: SchedulingMode, sym: Sym, fresh_cache: 
         assert!(alive_registered[j], "C04: selected uplink completed registration and is not timed out");
         assert!(!*conns[j].vh_stall_gated(), "C04: selected uplink is not stall-gated");
     }
+    // C04, override clause: at the call site (handle_srt_packet) the scheduler runs first, then must-land traffic
+    // (critical window / retransmit) may be re-routed to `select_best_quality_eligible_idx`.  Whatever that returns
+    // must satisfy the same eligibility rule, on the stall-gate flags exactly as the scheduler has just left them.
+    let tgt = srtla_core::priority::select_best_quality_eligible_idx(&conns[..], now);
+    let elig: [bool; N] = core::array::from_fn(|i| conns[i].connected && alive_registered[i] && !*conns[i].vh_stall_gated());
+    match tgt {
+        Some(t) => {
+            assert!(t < N, "override target in range");
+            assert!(alive_registered[t], "C04: the priority-override target completed registration and is not timed out");
+            assert!(!*conns[t].vh_stall_gated(), "C04: the priority-override target is not stall-gated");
+            assert!(conns[t].connected, "C04: the priority-override target is connected");
+            let qt = conns[t].vh_quality_cache().multiplier;
+            let mut k = 0;
+            while k < N {
+                if elig[k] {
+                    let qk = conns[k].vh_quality_cache().multiplier;
+                    assert!(!(qk > qt) && (k >= t || qk < qt || qk != qk || qt != qt), "the override target has the best cached quality among eligible uplinks (first wins ties)");
+                }
+                k += 1;
+            }
+        }
+        None => {
+            let mut k = 0;
+            while k < N {
+                // an eligible link with a comparable (non-NaN, > -inf) multiplier would have been returned
+                let qk = conns[k].vh_quality_cache().multiplier;
+                assert!(!elig[k] || !(qk > f64::NEG_INFINITY), "no override target only if no eligible uplink");
+                k += 1;
+            }
+        }
+    }
+    kani::cover!(tgt.is_some() && tgt != res && res.is_some(), "override target differs from the scheduler's choice");
+    kani::cover!(tgt.is_none() && conns[0].connected && !alive_registered[0], "a connected but timed-out / registering uplink is not an override target");
+
     // C12 (a): routing decisions never touch liveness / accounting state
     let mut i = 0;
     while i < N {
